@@ -32,6 +32,19 @@ TAINTS_KW = (
     ('kw-item-del', "kwargs.pop('%s', None)" % FOREIGN_KW),
     ('kw-update', 'kwargs.update({})'),
     ('kw-hand-off', 'observe(kwargs)'),
+    ('kw-hand-off-keyword', 'observe(options=kwargs)'),
+    ('kw-hand-off-in-list', 'observe([kwargs])'),
+    ('kw-hand-off-in-dict', "observe({'k': kwargs})"),
+    ('kw-hand-off-starred', 'observe(*[kwargs])'),
+    ('kw-stored-attribute', 'holder = CM()\nholder.v = kwargs\nholder.v.clear()'),
+    ('kw-alias-mutated', 'alias = kwargs\nalias.clear()'),
+    ('kw-setdefault', "kwargs.setdefault('%s', 1)" % FOREIGN_KW),
+    ('kw-clear', 'kwargs.clear()'),
+    ('kw-import-as', 'import functools as kwargs'),
+    ('kw-class-named', 'class kwargs(object):\n    pass'),
+    ('kw-match-mapping-rest', "match {'a': 1}:\n    case {**kwargs}:\n        pass"),
+    ('kw-match-as-capture', 'match {}:\n    case kwargs:\n        pass'),
+    ('kw-item-del-stmt', "kwargs['%s'] = 1\ndel kwargs['%s']" % (FOREIGN_KW, FOREIGN_KW)),
     ('kw-for-target', 'for kwargs in ({},):\n    pass'),
     ('kw-with-as', 'with CM({}) as kwargs:\n    pass'),
     ('kw-walrus', '(kwargs := {})'),
@@ -45,11 +58,20 @@ TAINTS_VA = (
     ('va-with-as', 'with CM(()) as args:\n    pass'),
     ('va-walrus', '(args := ())'),
     ('va-nonlocal', 'def _rebind():\n    nonlocal args\n    args = ()\n_rebind()'),
+    ('va-tuple-unpack-target', 'args, _rest = (), None'),
+    ('va-star-unpack-target', '*args, _last = (1,)'),
+    ('va-except-as', 'try:\n    raise KeyError(1)\nexcept KeyError as args:\n    pass'),
+    ('va-import-as', 'import functools as args'),
+    ('va-nested-def-named', 'def args():\n    pass'),
+    ('va-match-star-capture', 'match (1, 2):\n    case (_, *args):\n        pass'),
 )
 # statements that look at a star without changing what it denotes (ground truth: still pristine)
 NON_TAINTS = (
     ('va-hand-off-immutable', 'observe(args)'),
     ('va-len', 'n_args = len(args)'),
+    ('va-hand-off-keyword', 'observe(seq=args)'),
+    ('va-iterate', 'for _item in args:\n    pass'),
+    ('va-index', 'first = args[0] if args else None'),
     ('unrelated-local', 'unrelated = 1 + 2'),
     ('unrelated-call', 'observe(1)'),
 )
